@@ -23,10 +23,7 @@ Open Scope N_scope.
 Theorem C10_atomic_replace : forall v d0 sched,
   exists d, fs_path (st_fs (run v sched (init d0))) = Some (mkFile d n_chunks true) /\
             disk (run v sched (init d0)) = Some d.
-Proof.
-  intros v d0 l. destruct (atomic_replace v d0 l) as (d & Hp). exists d. split; [exact Hp|].
-  unfold disk. now rewrite Hp.
-Qed.
+Proof. exact atomic_replace_disk. Qed.
 Print Assumptions C10_atomic_replace.
 
 (* ... because only the writer's rename ever changes the path, and only by
@@ -63,10 +60,7 @@ Theorem C10_snapshot_is_flush_time_state : forall m fs,
   m_handle m = None -> m_dirty m = true ->
   m_handle (checkpoint m fs) = Some (mkWriter (snapshot_of m) (decode (fs_path fs)) WStart None) /\
   forall k, get k (snapshot_of m) = contents m k.
-Proof.
-  intros m fs Hh Hd. split; [now apply checkpoint_spawn|].
-  intros k. apply get_entries.
-Qed.
+Proof. exact snapshot_is_flush_time_state. Qed.
 Print Assumptions C10_snapshot_is_flush_time_state.
 
 Theorem C10_snapshot_immutable : forall v c s w w',
@@ -81,7 +75,7 @@ Theorem C10_only_changes_change_contents : forall v d0 sched c,
   let s := run v sched (init d0) in
   (forall ch, c <> Fg (Change ch)) ->
   forall k, contents (st_mem (step v c s)) k = contents (st_mem s) k.
-Proof. intros v d0 l c s Hc. apply step_contents; [apply reachable_Inv | exact Hc]. Qed.
+Proof. exact only_changes_change_contents. Qed.
 Print Assumptions C10_only_changes_change_contents.
 
 (* durable_after_close (drop = join; sync; flush; join - the tree after the fix):
@@ -97,6 +91,34 @@ Theorem C10_durable_after_close : forall d0 sched1 sched2,
 Proof. exact durable_after_close. Qed.
 Print Assumptions C10_durable_after_close.
 
+(* The first sentence of the property, literally: a change that was accepted (c is
+   applied to the dictionary in state s0) and is followed by any interleaving `mid`
+   of flushes, reopens, writer steps and ignored calls - but by no further change -
+   and then by a close that terminates, is in the file: the file shows exactly what
+   the dictionary showed right after the change.  (With further changes in between,
+   C10_durable_after_close says the file shows the state after the last of them.) *)
+Theorem C10_accepted_change_durable : forall d0 sched0 c mid sched2,
+  let s0 := run Fixed sched0 (init d0) in
+  let s1 := run Fixed (Fg (Change c) :: mid) s0 in
+  let s2 := run Fixed (Fg Close :: sched2) s1 in
+  st_pc s0 = Running ->
+  (forall x, In x mid -> forall ch, x <> Fg (Change ch)) ->
+  st_pc s1 = Running -> st_pc s2 = Closed ->
+  exists d, disk s2 = Some d /\ forall k, get k d = contents (do_change c (st_mem s0)) k.
+Proof. exact accepted_change_durable. Qed.
+Print Assumptions C10_accepted_change_durable.
+
+(* close terminates: from every reachable running state, under a scheduler that
+   keeps running both drop and the writer (16 rounds suffice: two writer runs of 6
+   steps and the 4 statements of drop), drop returns.  So the hypothesis
+   `st_pc s2 = Closed` of the durability theorems is satisfiable after EVERY
+   history. *)
+Theorem C10_close_terminates : forall d0 sched,
+  let s := run Fixed sched (init d0) in
+  st_pc s = Running -> st_pc (run Fixed (Fg Close :: fair 16) s) = Closed.
+Proof. exact close_terminates. Qed.
+Print Assumptions C10_close_terminates.
+
 (* The statement is FALSE for the drop of the pinned tree (sync; flush; join):
    update 1, flush, update 2, flush (ignored: writer busy), close while the first
    writer runs - drop's sync and flush both return early, the join waits for the
@@ -110,12 +132,7 @@ Theorem C10_durable_after_close_pinned_refuted :
   st_pc s1 = Running /\ st_pc s2 = Closed /\
   exists k v, contents (st_mem s1) k = Some v /\
               forall d, disk s2 = Some d -> get k d = None.
-Proof.
-  exists [], lost_update_l1, lost_update_l2.
-  destruct durable_after_close_pinned_refuted as (H1 & H2 & H3 & H4).
-  cbv zeta. split; [exact H1|]. split; [exact H2|]. exists 2, 2. split; [exact H3|].
-  intros d Hd. rewrite H4 in Hd. inversion Hd; subst d. reflexivity.
-Qed.
+Proof. exact durable_after_close_pinned_refuted_ex. Qed.
 Print Assumptions C10_durable_after_close_pinned_refuted.
 
 (* non-vacuity: the same history under the fixed drop reaches Closed with both
